@@ -14,9 +14,11 @@ theorem gen_overlaps_eq_ov (q qs qe b1 b1s b2 b2e : Nat) :
   simp only [ov, hle, Bool.and_eq_true, decide_eq_true_eq]
   delta Gen.overlaps
   try delta Gen.compare_position
-  simp only [Bool.and_eq_true, Bool.or_eq_true, Bool.not_eq_true', decide_eq_true_eq, decide_eq_false_iff_not,
-    Bool.if_false_left, Bool.if_false_right, Bool.if_true_left, Bool.if_true_right, ite_eq_left_iff, Bool.false_eq_true]
-  repeat' split
-  all_goals omega
+  first
+  | grind
+  | (simp only [Bool.and_eq_true, Bool.or_eq_true, Bool.not_eq_true', decide_eq_true_eq, decide_eq_false_iff_not,
+       Bool.if_false_left, Bool.if_false_right, Bool.if_true_left, Bool.if_true_right, ite_eq_left_iff, Bool.false_eq_true]
+     repeat' split
+     all_goals omega)
 
 end RT
